@@ -281,6 +281,22 @@ def encode_program(shape, v, mode, backend):
         return pt.Seq(*steps, pt.Log(inst.encode()))
     if backend == "main":
         return pt.Seq(body(), pt.Int(1))
+    if backend.startswith("crowded"):
+        # the value is the OUTPUT of an ABI-returning subroutine that first brings `pad` other ABI values to life (the
+        # parts then straddle the end of the addressable frame: some live in the frame, the rest in scratch slots)
+        pad = int(backend[len("crowded"):])
+        sp = spec(shape)
+
+        def crowded(*, output):
+            pads = [pt.abi.Uint64() for _ in range(pad)]
+            steps = [x.set(pt.Int(900000 + i)) for i, x in enumerate(pads)]
+            make(shape, v, mode, steps, inst=output)
+            steps += [pt.Assert(x.get() == pt.Int(900000 + i)) for i, x in enumerate(pads)]
+            return pt.Seq(*steps)
+        crowded.__annotations__ = {"output": sp.annotation_type(), "return": pt.Expr}
+        asub = pt.ABIReturnSubroutine(crowded)
+        res = sp.new_instance()
+        return pt.Seq(asub().store_into(res), pt.Log(res.encode()), pt.Int(1))
 
     def assemble_in_subroutine():
         return body()
